@@ -79,6 +79,21 @@ def _keys(ctx):
     return {r["key"] for r in ctx.records if r["status"] == "violation"}
 
 
+def tree_digest(prog):
+    """Digest of the analysed (normalised) trees: two programs with the same digest get the same verdict from every rule."""
+    import ast
+    import hashlib
+
+    h = hashlib.sha1()
+    for rel in sorted(prog.by_rel):
+        h.update(rel.encode())
+        h.update(ast.dump(prog.by_rel[rel].tree).encode())
+    return h.hexdigest()
+
+
+BASE_DIGEST = None
+
+
 def _run_case(args):
     prop, repo, case, base_keys = args
     from .check import run_rules
@@ -88,6 +103,8 @@ def _run_case(args):
         return case["name"], "skipped", "anchor not found (or not unique) in the tree under analysis"
     try:
         prog = Program(repo, overrides=ov)
+        if case.get("kind") == "twin" and BASE_DIGEST is not None and tree_digest(prog) == BASE_DIGEST:
+            return case["name"], "silent", "normal form identical to the tree under analysis"
         ctx, _ = run_rules(prop, prog, "quick")
     except AnalysisError as e:
         if case.get("kind", "mutant") == "mutant" and case.get("accept_analysis_error"):
@@ -118,6 +135,8 @@ def run(prop, repo, base_ctx, jobs=16):
     cases = corpus(prop)
     base_keys = _keys(base_ctx)
     res = []
+    global BASE_DIGEST
+    BASE_DIGEST = tree_digest(base_ctx.prog) if getattr(base_ctx, "prog", None) is not None and not getattr(base_ctx.prog, "overrides", None) else None
     if cases:
         args = [(prop, repo, c, base_keys) for c in cases]
         if jobs > 1 and len(cases) > 2:
